@@ -461,7 +461,8 @@ theorem mailbox_close_eq (ctx : Ctx) (side : String) (mood : Option String) (t :
 
 /-- the translated methods are there, under these names -/
 theorem translated_methods :
-    ["Mailbox.open", "Mailbox._touch", "Mailbox._add_message", "Mailbox.add_message", "Mailbox.close",
+    ["Mailbox.get_messages", "Mailbox.add_listener", "Mailbox.open", "Mailbox._touch", "Mailbox._add_message",
+     "Mailbox.add_message", "Mailbox.close",
      "AppNamespace._summarize_nameplate_and_store", "AppNamespace._summarize_mailbox_and_store", "AppNamespace._add_mailbox",
      "AppNamespace.open_mailbox", "AppNamespace.claim_nameplate", "AppNamespace.release_nameplate",
      "AppNamespace.allocate_nameplate", "AppNamespace.log_client_version"].all
